@@ -283,6 +283,36 @@ def res_equal(a, b):
     return same_float(a[0], b[0]) and same_float(a[1], b[1])
 
 
+def magnitude_class(lat):
+    return '2^0' if lat == 0 else ('2^-60..2^-20' if lat < -20 else ('2^-20..2^20' if lat <= 20 else '2^20..2^60'))
+
+
+def com_exact_with_bound(data, mask):
+    """exact weighted mean of arbitrary doubles (Fractions) and a rigorous bound on what a
+    floating-point evaluation in any summation order may return; None when the total is
+    zero or so small relative to the summands that the bound is useless."""
+    u = Fraction(1, 2 ** 53)
+    n = data.size + 2
+    T = X = Y = AT = AX = AY = Fraction(0)
+    for y in range(data.shape[0]):
+        for x in range(data.shape[1]):
+            v = data[y, x]
+            if (mask is not None and mask[y, x]) or not math.isfinite(v):
+                continue
+            fv = Fraction(float(v))
+            T += fv
+            X += x * fv
+            Y += y * fv
+            AT += abs(fv)
+            AX += x * abs(fv)
+            AY += y * abs(fv)
+    if T == 0 or 4 * n * u * AT >= abs(T):
+        return None
+    tx = (4 * n * u * (AX + abs(X / T) * AT)) / abs(T) + 4 * u * abs(X / T)
+    ty = (4 * n * u * (AY + abs(Y / T) * AT)) / abs(T) + 4 * u * abs(Y / T)
+    return X / T, Y / T, tx, ty
+
+
 def com_scale(data):
     return 4 if np.any(np.isfinite(data) & (data != np.round(data))) else 1
 
@@ -582,12 +612,16 @@ def pairz(v):
     return (int(v), int(v)) if np.isscalar(v) else (int(v[0]), int(v[1]))
 
 
-def quad_to_coq(c, out, calls):
+def quad_to_coq(c, out, calls, lat=0):
+    """c holds the unscaled lattice image; the implementation ran on data * 2**lat, so the
+    observed right-hand side of lstsq is divided by 2**lat (exact) before it is compared
+    with the model's rows; the recorded coefficients stay as returned (all tests on them
+    are homogeneous)."""
     kw = c['kw']
     lsq = None
     if len(calls) == 1:
         A, b, coef = calls[0]
-        rows = [(int(A[i, 1]), int(A[i, 2]), int(b[i])) for i in range(len(b))]
+        rows = [(int(A[i, 1]), int(A[i, 2]), int(b[i] * 2.0 ** (-lat))) for i in range(len(b))]
         lsq = Some((rows, tuple(f2dy(v) for v in coef[1:6])))
     obs = Raw('ORaise') if out == 'raise' else Raw('(OOut ' + coq(fres(*out)) + ')')
     return 'CQuad ' + coq((img_opt(c['data']), None if c['mask'] is None else Some(img_bool(c['mask'])),
@@ -728,30 +762,45 @@ def run(ctx):
     n_com = 300 if quick else 2500
     for i in range(n_com):
         c = gen_com(rng)
-        impl = com_impl(c['data'], c['mask'])
+        # the same lattice image at a magnitude between 2^-60 and 2^60: multiplying by a power of two is
+        # exact, so the implementation must return bit-identical results; Coq sees the unscaled integers
+        lat = 0 if rng.random() < 0.35 else rng.randint(-60, 60)
+        cf = dict(c, data=c['data'] * 2.0 ** lat)
+        impl = com_impl(cf['data'], c['mask'])
         ctx.stat('com_kind', c['kind'])
+        ctx.stat('com_magnitude', magnitude_class(lat))
         ctx.stat('com_result', 'raise' if impl == 'raise' else ('nan' if math.isnan(impl[0]) else 'value'))
-        desc = {'fn': 'centroid_com', 'data': jimg(c['data']),
+        desc = {'fn': 'centroid_com', 'data': jimg(cf['data']),
                 'mask': None if c['mask'] is None else c['mask'].astype(int).tolist()}
         ctx.count_case(desc, impl != 'raise' and not math.isnan(impl[0]))
         if i < 1:
             ctx.sample({'case': desc, 'impl': None if impl == 'raise' else list(impl)})
-        want = com_oracle(c['data'], c['mask'])
+        want = com_oracle(cf['data'], c['mask'])
         if not res_equal(impl, want):
             ctx.violation('centroid_com:weighted-mean', 'centroid_com differs from the intensity-weighted mean '
                           'coordinate of the unmasked finite pixels', dict(desc, impl=str(impl), want=str(want)))
-        com_metamorphic(ctx, c, impl, desc)
+        com_metamorphic(ctx, cf, impl, desc)
+        if impl != 'raise' and fres(*impl) == 'mixed':
+            ctx.violation('centroid_com:half-nan', f'centroid_com returned {impl}: an infinite coordinate, or one NaN '
+                          'and one finite coordinate', desc)
+            continue
         terms.append(com_to_coq(c, impl))
-        meta.append(('com', c, impl, desc))
+        meta.append(('com', cf, impl, desc))
 
     # ---------------- centroid_sources ----------------
     n_src = 300 if quick else 2500
     wit = witnesses()
     for i in range(n_src + len(wit)):
         c = wit[i] if i < len(wit) else gen_src(rng)
-        impl = src_impl(c)
-        desc = dict(src_describe(c), fn='centroid_sources')
-        src_checks(ctx, c, impl, desc, shuffle=True)
+        lat = 0
+        if i >= len(wit) and c['fname'] == 'com' and rng.random() < 0.7:
+            lat = rng.randint(-60, 60)         # centroid_com is scale free: same lattice, other magnitude
+        cf = dict(c, data=c['data'] * 2.0 ** lat)
+        impl = src_impl(cf)
+        desc = dict(src_describe(cf), fn='centroid_sources')
+        src_checks(ctx, cf, impl, desc, shuffle=True)
+        if c['fname'] == 'com':
+            ctx.stat('src_com_magnitude', magnitude_class(lat))
         ctx.stat('src_func', c['fname'])
         ctx.stat('src_npos', str(len(c['xs'])))
         ctx.stat('src_kw', '+'.join(sorted(c['kw'])) or 'none')
@@ -765,14 +814,18 @@ def run(ctx):
             ctx.violation('centroid_sources:half-nan', 'one coordinate NaN and the other finite', desc)
             continue
         terms.append(src_to_coq(c, impl))
-        meta.append(('src', c, impl, desc))
+        meta.append(('src', cf, impl, desc))
 
     # ---------------- centroid_quadratic ----------------
     n_quad = 300 if quick else 2500
     for i in range(n_quad):
         c = gen_quad(rng)
+        lat = 0 if rng.random() < 0.35 else rng.randint(-60, 60)
+        c_lattice = c
+        c = dict(c, data=c['data'] * 2.0 ** lat)     # exact rescaling; Coq sees the unscaled integers
         out, calls = quad_impl(c)
         desc = dict(quad_describe(c), fn='centroid_quadratic')
+        ctx.stat('quad_magnitude', magnitude_class(lat))
         ctx.stat('quad_kind', c['kind'])
         ctx.stat('quad_result', 'raise' if out == 'raise' else ('nan' if math.isnan(out[0]) else
                                                                 ('fit' if calls else 'border')))
@@ -805,7 +858,7 @@ def run(ctx):
             continue
         if calls:
             ctx.stat('quad_decision_margin', 'inside_rounding_bound' if det_marginal(calls[0][2]) else 'clear')
-        terms.append(quad_to_coq(c, out, calls))
+        terms.append(quad_to_coq(c_lattice, out, calls, lat))
         meta.append(('quad', c, out, desc))
 
     # ---------------- the model on the same cases ----------------
@@ -858,6 +911,7 @@ def run(ctx):
     gaussian_support(ctx, 12 if quick else 120)
     quadratic_metamorphic(ctx, 40 if quick else 400)
     symmetric_support(ctx, 30 if quick else 300)
+    scale_support(ctx, 10 if quick else 100)
 
 
 def com_metamorphic(ctx, c, impl, desc):
@@ -877,7 +931,7 @@ def com_metamorphic(ctx, c, impl, desc):
     g = com_impl(data[:, ::-1], None if m is None else m[:, ::-1])
     f = com_impl(data[::-1, :], None if m is None else m[::-1, :])
     t = com_impl(data.T, None if m is None else m.T)
-    s = com_impl(data * 4.0, m)
+    s = com_impl(data * 2.0 ** ctx.rng.randint(-60, 60), m)     # exact rescaling: bit-identical result
     if nanres:
         for name, r in (('flip-x', g), ('flip-y', f), ('transpose', t), ('scale', s)):
             rel(name, r, impl)
@@ -890,6 +944,18 @@ def com_metamorphic(ctx, c, impl, desc):
         # the flipped centroid is the mirror image up to one rounding
         if abs((nx - 1 - g[0]) - impl[0]) > 1e-12 * max(1.0, abs(impl[0]), nx) or not same_float(g[1], impl[1]):
             rel('flip-x-mirror', g, (nx - 1 - impl[0], impl[1]))
+    # non-dyadic positive factor (magnitudes 1e-15 .. 1e16): equal to the exact weighted mean of the
+    # rescaled doubles up to a rigorous rounding bound
+    fac = ctx.rng.uniform(1.0, 10.0) * 10.0 ** ctx.rng.randint(-15, 15)
+    with np.errstate(all='ignore'):
+        d3 = data * fac
+    ex = com_exact_with_bound(d3, m)
+    if ex is not None:
+        r3 = com_impl(d3, m)
+        if r3 == 'raise' or not (abs(Fraction(r3[0]) - ex[0]) <= ex[2] and abs(Fraction(r3[1]) - ex[1]) <= ex[3]
+                                 if math.isfinite(r3[0]) and math.isfinite(r3[1]) else False):
+            ctx.violation('centroid_com:scale', f'centroid_com of the data times {fac!r}: got {r3}, exact weighted mean '
+                          f'{(float(ex[0]), float(ex[1]))}', dict(desc, relation='scale-decimal', factor=fac))
     if m is not None and m.shape == data.shape and m.any():
         d2 = data.copy()
         d2[m] = [ctx.rng.choice([1e6, -7.0, np.nan, np.inf]) for _ in range(int(m.sum()))]
@@ -1030,11 +1096,13 @@ def quadratic_metamorphic(ctx, n):
         # unique maximum so that flips do not change the selected peak
         yx = np.unravel_index(np.argmax(data), data.shape)
         data[yx] += 3
-        fb = rng.choice([3, 5])
+        fb = rng.choice([3, 5, 3, 5, (3, 5), (5, 3), (5, 7), (7, 5)])
+        fbt = fb if np.isscalar(fb) else fb[::-1]
         r = safe(centroid_quadratic, data, fit_boxsize=fb)
         rf = safe(centroid_quadratic, data[:, ::-1], fit_boxsize=fb)
-        rt = safe(centroid_quadratic, data.T, fit_boxsize=fb)
-        rs = safe(centroid_quadratic, data * 4, fit_boxsize=fb)
+        ru = safe(centroid_quadratic, data[::-1, :], fit_boxsize=fb)
+        rt = safe(centroid_quadratic, data.T, fit_boxsize=fbt)
+        rs = safe(centroid_quadratic, data * 2.0 ** rng.randint(-60, 60), fit_boxsize=fb)
         m = np.zeros(data.shape, bool)
         far = [(yy, xx) for yy in range(ny) for xx in range(nx) if (yy, xx) != tuple(yx)]
         m[far[rng.randrange(len(far))]] = True
@@ -1048,14 +1116,107 @@ def quadratic_metamorphic(ctx, n):
         def close(a, b):
             return (math.isnan(a) and math.isnan(b)) or abs(a - b) < 1e-7
         checks = [('flip-x', close(rf[0], nx - 1 - r[0]) and close(rf[1], r[1])),
+                  ('flip-y', close(ru[0], r[0]) and close(ru[1], ny - 1 - r[1])),
                   ('transpose', close(rt[0], r[1]) and close(rt[1], r[0])),
-                  ('scale', close(rs[0], r[0]) and close(rs[1], r[1])),
+                  ('scale', all((math.isnan(a) and math.isnan(b)) or abs(a - b) <= 1e-12 for a, b in zip(rs, r))),
                   ('masked-values-ignored', same_float(r1[0], r2[0]) and same_float(r1[1], r2[1]))]
         for cname, ok in checks:
             ctx.support('quadratic_' + cname)
             if not ok:
                 ctx.violation(f'centroid_quadratic:{cname}', f'centroid_quadratic {cname}',
                               dict(desc, relation=cname, base=[float(v) for v in r]))
+
+
+def scale_rule(name, label):
+    """(comparison, tolerance) for f(data * s) against f(data)."""
+    if name == 'com':
+        return ('bit-identical', 0.0) if label == 'dyadic' else ('tolerance', 1e-9)
+    if name == 'quadratic':     # LAPACK gelsd is scale equivariant only up to an ulp (observed), not bit for bit
+        return ('tolerance', 1e-12) if label == 'dyadic' else ('tolerance', 1e-9)
+    return ('tolerance', 2e-3)
+
+
+def scale_ok(name, label, a, b):
+    kind, tol = scale_rule(name, label)
+    if kind == 'bit-identical':
+        return same_float(a[0], b[0]) and same_float(a[1], b[1])
+    return all((math.isnan(p) and math.isnan(q)) or abs(p - q) <= tol for p, q in zip(a, b))
+
+
+def scale_sig(name, factor):
+    # Gaussian fits of faint data stop at the initial guess (absolute fitter tolerance): recorded finding
+    return f'centroid_{name}:scale' + (':small-amplitude' if name in ('1dg', '2dg') and factor < 1e-5 else '')
+
+
+def scale_factors(rng):
+    return [('dyadic', 2.0 ** rng.randint(-60, 60)),
+            ('decimal', rng.uniform(1.0, 10.0) * 10.0 ** rng.randint(-12, 11)),
+            ('extreme', rng.uniform(1.0, 10.0) * 10.0 ** rng.choice([-16, -15, -14, 13, 14]))]
+
+
+def scale_support(ctx, n):
+    """positive rescaling over many decades (factors 2^-60..2^60, 1e-12..1e12, magnitudes
+    1e-15..1e15) for every centroid function, directly and through centroid_sources.
+    centroid_com: bit-identical for powers of two, 1e-9 otherwise; centroid_quadratic: 1e-12 for
+    powers of two (lstsq differs in the last bit), 1e-9 otherwise; centroid_1dg / centroid_2dg: 2e-3."""
+    rng = ctx.rng
+    fs = funcs()
+    names = ('com', 'quadratic', '1dg', '2dg')
+    for i in range(n):
+        ny, nx = rng.randint(7, 12), rng.randint(7, 12)
+        blob = rand_img(rng, ny, nx, 'blob') + 1.0
+        yx = np.unravel_index(np.argmax(blob), blob.shape)
+        blob[yx] += 3
+        # the Gaussian fits get a well-posed problem (what they model): a clean elliptical Gaussian well
+        # inside the cutout, no background; everything else is fitter conditioning, not rescaling
+        y, x = np.mgrid[:ny, :nx]
+        ox, oy = rng.uniform(2.5, nx - 3.5), rng.uniform(2.5, ny - 3.5)
+        clean = 100 * np.exp(-((x - ox) ** 2 / (2 * 1.5 ** 2) + (y - oy) ** 2 / (2 * 1.3 ** 2)))
+        factors = scale_factors(rng)
+        for name in names:
+            data = blob if name in ('com', 'quadratic') else clean
+            base = safe(fs[name], data)
+            ctx.count_case({'fn': 'scale', 'func': name, 'data': jimg(data), 'factors': [f for _, f in factors]},
+                           not math.isnan(base[0]))
+            for label, fac in factors:
+                got = safe(fs[name], data * fac)
+                ctx.support(f'scale_{name}_{label}')
+                if not scale_ok(name, label, got, base):
+                    ctx.violation(scale_sig(name, fac), f'centroid_{name}(data * {fac!r}) = {got}, centroid_{name}(data) = '
+                                  f'{base} ({" ".join(map(str, scale_rule(name, label)))})',
+                                  {'fn': 'scale', 'func': name, 'factor': fac, 'label': label, 'data': jimg(data)})
+        # through centroid_sources
+        name = names[i % 4]
+        c = gen_src_real(rng, name) if name in ('com', 'quadratic') else gen_src_clean(rng, name)
+        base = src_impl(c)
+        if base == 'raise':
+            continue
+        ctx.count_case(dict(src_describe(c), fn='scale_sources'))
+        for label, fac in factors:
+            got = src_impl(dict(c, data=c['data'] * fac))
+            ctx.support(f'scale_sources_{name}_{label}')
+            if got == 'raise' or len(got) != len(base) or not all(scale_ok(name, label, g, b) for g, b in zip(got, base)):
+                ctx.violation(scale_sig(name, fac), f'centroid_sources(data * {fac!r}, centroid_func=centroid_{name}) = {got}, '
+                              f'unscaled: {base}', dict(src_describe(c), fn='scale_sources', factor=fac, label=label))
+
+
+def gen_src_clean(rng, fname):
+    """1..4 well separated clean Gaussian sources (no background), 9x9 boxes."""
+    ny = nx = 24
+    y, x = np.mgrid[:ny, :nx]
+    spots = [(6, 6), (17, 6), (6, 17), (17, 17)]
+    rng.shuffle(spots)
+    data = np.zeros((ny, nx))
+    xs, ys = [], []
+    for sx, sy in spots[:rng.randint(1, 4)]:
+        cx, cy = sx + rng.uniform(-1, 1), sy + rng.uniform(-1, 1)
+        data += rng.choice([50, 100, 200]) * np.exp(-((x - cx) ** 2 + (y - cy) ** 2) / (2 * 1.5 ** 2))
+        xs.append(float(round(cx)))
+        ys.append(float(round(cy)))
+    kw = {}
+    if rng.random() < 0.5:
+        kw['error'] = np.array([[rng.randint(1, 4) / 2 for _ in range(nx)] for _ in range(ny)], float)
+    return dict(fname=fname, data=data, xs=xs, ys=ys, box=9, foot=None, mask=None, kw=kw, kind='clean')
 
 
 def sym_source(rng, ny, nx, cx2, cy2, radius=2.0):
@@ -1187,6 +1348,18 @@ def replay(obj):
             com_metamorphic(cc, dict(data=data, mask=mask, sym=None), impl, {})
             print('metamorphic failures:', cc.bad)
             ok = not cc.bad
+    elif fn == 'scale':
+        f = funcs()[r['func']]
+        data = unj(r['data'])
+        a, b = safe(f, data * r['factor']), safe(f, data)
+        print(f"centroid_{r['func']}(data * {r['factor']!r}) = {a};  unscaled: {b}")
+        ok = scale_ok(r['func'], r['label'], a, b)
+    elif fn == 'scale_sources':
+        c = src_undescribe(r)
+        a, b = src_impl(dict(c, data=c['data'] * r['factor'])), src_impl(c)
+        print(f"centroid_sources(data * {r['factor']!r}) = {a};  unscaled: {b}")
+        ok = a != 'raise' and b != 'raise' and len(a) == len(b) and \
+            all(scale_ok(r['func'], r['label'], g, h) for g, h in zip(a, b))
     elif fn == 'symmetric_source':
         f = funcs()[r['func']]
         data = unj(r['data'])
